@@ -56,9 +56,10 @@ def rule_a(ctx: Context, R: Reporter, fit: FuncInfo):
 
     mc = mode_class(ctx)
     facs = [m for m in mc.methods.values() if m.is_classmethod]
+    hosts = [m for m in mc.methods.values() if m.name != "__init__"]
     n_sites = 0
     R.check("C19.a", "both factories fit through the guarded Student-t call (or delegate with the fallback passed on)", len(facs) >= 2, mc.methods["__init__"], mc.node, key="factories-present")
-    for m in facs:
+    for m in hosts:
         flow = flow_of(m.node)
         cfg = flow.cfg
         for nd in cfg.stmt_nodes():
@@ -106,12 +107,12 @@ def rule_a(ctx: Context, R: Reporter, fit: FuncInfo):
     for fi in ctx.prog.functions.values():
         for (call, tg) in ctx.cg.sites.get(fi.qualname, []):
             for t in tg:
-                if isinstance(t, FuncInfo) and t in facs:
+                if isinstance(t, FuncInfo) and (t in facs or (t.cls is mc and any("fallback" in p for p in t.params))):
                     n_calls += 1
                     fbp = next((p for p in t.params if "fallback" in p), None)
                     if fbp is None:
                         raise AnalysisError(f"C19.a: factory {t.short} has no fallback parameter")
-                    idx = [p for p in t.params if p != "cls"].index(fbp)
+                    idx = [p for p in t.params if p not in ("cls", "self")].index(fbp)
                     arg = call_arg(call, idx, fbp)
                     R.check("C19.a", f"{fi.short} passes the configured dof fallback to {t.name}", arg is not None, fi, call,
                             msg=f"{fi.short}: `{unparse(call)[:60]}` does not pass `{fbp}`: the factory silently uses its class default instead of the configured fallback", key=f"fallback-passed:{fi.short}:{t.name}")
@@ -207,7 +208,7 @@ def rule_c(ctx: Context, R: Reporter):
     mc = mode_class(ctx)
     n = 0
     for m in mc.methods.values():
-        if not m.is_classmethod:
+        if m.name == "__init__":
             continue
         flow = flow_of(m.node)
         for nd in flow.cfg.stmt_nodes():
@@ -237,7 +238,7 @@ def rule_c(ctx: Context, R: Reporter):
                                     msg=f"{m.short}: `{idx}` is drawn over range(len({owner})) but used as `{unparse(s)}`: rows of a different array are selected "
                                         f"(each mode would be fitted from the wrong particles)", key=f"index-space:{m.name}")
                 # p has the same length: p's base is the weights of the same owner selection
-    R.floor("C19.c", "resampling-index uses in the factories", n, 2)
+    R.floor("C19.c", "resampling-index uses in the factories", n, 1)
 
 
 def run(ctx: Context, R: Reporter):
